@@ -24,12 +24,13 @@ META = {
 JWT_CFG = {"key": "hs-secret-key-0123456789abcdef0123456789", "alg": "HS256", "iss": "https://as.example", "exp": 3600}
 REG1 = "https://client.example/cb"
 REG2 = "https://client.example/cb2?x=1&y=a%20b"
+REG3 = "https://client.example/cb3?tenant[id]=42&lang=en&q=a$b'c|d~e"      # a registered query with characters outside authlib's strict urlencoded set
 CLIENTS = [
-    {"id": "c1", "redirect_uris": [REG1, REG2], "response_types": ["code", "code id_token", "code token"], "auth_method": "client_secret_basic", "scope": "a b openid"},
+    {"id": "c1", "redirect_uris": [REG1, REG2, REG3], "response_types": ["code", "code id_token", "code token"], "auth_method": "client_secret_basic", "scope": "a b openid"},
     {"id": "p1", "redirect_uris": [REG1], "response_types": ["token", "id_token", "id_token token", "code id_token", "code id_token token", "code"], "auth_method": "none", "scope": "a openid"},
     {"id": "nr", "redirect_uris": [], "response_types": ["code", "token"], "auth_method": "none", "scope": "a"},
 ]
-REDIRECTS = [None, REG1, REG2, "https://evil.example/x", REG1 + "/", REG1 + "?", REG1 + "x", "https://client.example.evil.example/cb",
+REDIRECTS = [None, REG1, REG2, REG3, "https://evil.example/x", REG1 + "/", REG1 + "?", REG1 + "x", "https://client.example.evil.example/cb",
              REG1 + "#f", "https://CLIENT.example/cb", "", "//x", "https:/x", "javascript:alert(1)", "https://client.example/cb2",
              "https://client.example/cb2?x=1"]
 RESPONSE_TYPES = ["code", "token", "id_token", "id_token token", "token id_token", "code id_token", "code token", "id_token code token",
